@@ -94,7 +94,15 @@ func runSolver(ctx context.Context, s solverSpec, text string, dir string, id st
 	cmd.Run()
 	ms = time.Since(t0).Milliseconds()
 	out = buf.String()
-	first := strings.TrimSpace(strings.SplitN(out, "\n", 2)[0])
+	first := ""
+	for _, l := range strings.Split(out, "\n") {
+		l = strings.TrimSpace(l)
+		if l == "" || strings.HasPrefix(l, "WARNING") || strings.Contains(l, "No set-logic command") || strings.Contains(l, "cvc5 will make all theories") || strings.Contains(l, "Consider setting a stricter logic") {
+			continue
+		}
+		first = l
+		break
+	}
 	switch first {
 	case "unsat":
 		return "unsat", out, ms
@@ -151,14 +159,11 @@ func solveQuery(q *Query, dir, id string, timeoutS int, order int) (status, solv
 func parseModel(out string, vars []ModelVar) map[string]string {
 	m := map[string]string{}
 	// output after first line: ((term value) (term value) ...)
-	i := strings.Index(out, "\n")
+	i := strings.Index(out, "((")
 	if i < 0 {
 		return m
 	}
-	body := strings.TrimSpace(out[i+1:])
-	if !strings.HasPrefix(body, "(") {
-		return m
-	}
+	body := strings.TrimSpace(out[i:])
 	// split top-level pairs
 	depth := 0
 	start := -1
